@@ -17,6 +17,7 @@ import PhyVerif.Driver.C18
 import PhyVerif.Driver.C10
 import PhyVerif.Driver.C14
 import PhyVerif.Driver.C13
+import PhyVerif.Driver.C04
 open Lean PhyVerif.Driver
 
 partial def dispatch (j : Json) : R Json := do
@@ -49,6 +50,7 @@ partial def dispatch (j : Json) : R Json := do
   | "C10" => runC10 op j
   | "C14" => runC14 op j
   | "C13" => runC13 op j
+  | "C04" => runC04 op j
   | _ => .error s!"unknown property {p}"
 
 def handle (line : String) : String :=
